@@ -1976,4 +1976,25 @@ theorem griddify_result (env : Env α) (st : Eps α) (a : Allocation α) (hv : V
     have hm : c.rect ∈ a.cells.map (·.rect) := List.mem_map.mpr ⟨c, hc, rfl⟩
     exact ⟨hv.cells.good c hc, (mem_sidesX _ _ hm).1, (mem_sidesX _ _ hm).2, (mem_sidesY _ _ hm).1, (mem_sidesY _ _ hm).2⟩
 
+/-! ### Python's compensated `sum()` is the plain sum in exact arithmetic -/
+
+theorem pySumLoop_eq (l : List α) (f c : α) : pySumLoop l f c = (f + l.sum, c) := by
+  induction l generalizing f c with
+  | nil => simp [pySumLoop]
+  | cons x xs ih =>
+    unfold pySumLoop
+    simp only
+    rw [ih]
+    have e1 : c + ((f - (f + x)) + x) = c := by ring
+    have e2 : c + ((x - (f + x)) + f) = c := by ring
+    split
+    · rw [e1, List.sum_cons]; congr 1; ring
+    · rw [e2, List.sum_cons]; congr 1; ring
+
+theorem pySum_eq_sum (l : List α) : pySum l = l.sum := by
+  unfold pySum
+  rw [pySumLoop_eq]
+  have : isZero (zero : α) = true := by rw [isZero_iff]; simp
+  simp [this]
+
 end FV
